@@ -222,3 +222,107 @@ def returned_names(stmts) -> Optional[set]:
         if isinstance(st, ast.Assign) and len(st.targets) == 1 and isinstance(st.targets[0], ast.Name) and st.targets[0].id in names:
             names |= {n.id for n in ast.walk(st.value) if isinstance(n, ast.Name)}
     return names
+
+
+# --------------------------------------------------------------------------
+# loop headers: `for i in range(..)`, `for x in arr`, `for x in arr[1:]`, `for k, x in enumerate(arr)`
+# --------------------------------------------------------------------------
+
+class LoopBinding:
+    """The positions a `for` loop visits, as an index symbol `idx` ranging over [lo, hi) with step 1,
+    plus the values its target names take at position idx."""
+
+    def __init__(self, idx: Rat, lo: Rat, hi: Rat, bindings: Dict[str, Any], what: str):
+        self.idx, self.lo, self.hi, self.bindings, self.what = idx, lo, hi, bindings, what
+
+    def visits(self, lo_want, hi_want: Rat) -> bool:
+        lo_ok = self.lo.is_const() == lo_want if isinstance(lo_want, int) else self.lo.equals(lo_want)
+        return lo_ok and self.hi.equals(hi_want)
+
+
+def bind_loop(ev: Evaluator, fr, loop: ast.For, env: Dict[str, Any]) -> Optional[LoopBinding]:
+    """None when the header has no recognised shape."""
+    from ..gvn import Frame
+    from ..intervals import single_atom
+    it = loop.iter
+    tgt = loop.target
+
+    def names_of(t):
+        if isinstance(t, ast.Name):
+            return [t.id]
+        if isinstance(t, (ast.Tuple, ast.List)) and all(isinstance(e, ast.Name) for e in t.elts):
+            return [e.id for e in t.elts]
+        return None
+    tn = names_of(tgt)
+    if tn is None:
+        return None
+    # range(...)
+    if isinstance(it, ast.Call) and isinstance(it.func, ast.Name) and it.func.id == "range" and not it.keywords and isinstance(tgt, ast.Name):
+        args = [fr.expr(a, env) for a in it.args]
+        if not all(isinstance(a, Rat) for a in args):
+            return None
+        if len(args) == 1:
+            lo, hi = Rat.const(0), args[0]
+        elif len(args) == 2:
+            lo, hi = args
+        elif len(args) == 3 and args[2].is_const() == 1:
+            lo, hi = args[0], args[1]
+        else:
+            return None
+        idx = ev.symbol(tgt.id)
+        return LoopBinding(idx, lo, hi, {tgt.id: idx}, f"range({lo}, {hi})")
+    # enumerate(arr[, start])
+    start = Rat.const(0)
+    enum = False
+    seq_node = it
+    if isinstance(it, ast.Call) and isinstance(it.func, ast.Name) and it.func.id == "enumerate" and it.args and isinstance(tgt, ast.Tuple) and len(tgt.elts) == 2 \
+            and isinstance(tgt.elts[0], ast.Name):
+        enum = True
+        seq_node = it.args[0]
+        if len(it.args) == 2:
+            sv = fr.expr(it.args[1], env)
+            if not isinstance(sv, Rat):
+                return None
+            start = sv
+        for kw in it.keywords:
+            if kw.arg == "start":
+                sv = fr.expr(kw.value, env)
+                if not isinstance(sv, Rat):
+                    return None
+                start = sv
+    seq = fr.expr(seq_node, env)
+    idx = ev.symbol("pos!" + (tn[-1] if tn else "i"))
+    lo = Rat.const(0)
+
+    def element(arrv, pos):
+        if isinstance(arrv, Vec) and arrv.kind == "point" and arrv.items and isinstance(arrv.items[0], Rat) and arrv.items[0].is_array():
+            return Vec([anf.opaque("at", c, pos, array=False) for c in arrv.items], "point"), ev.length_of(arrv)
+        if isinstance(arrv, Rat) and arrv.is_array():
+            a = single_atom(arrv)
+            if a is not None and a.kind == "fn" and a.name == "slice":
+                base, slo, shi = a.args
+                if shi.symbols() == {"None"} and (slo.is_const() is None or slo.is_const() >= 0):
+                    # x[k:] : positions k .. len(x)-1 of x itself
+                    return ("slice", base, slo), None
+            return anf.opaque("at", arrv, pos, array=False), ev.length_of(arrv)
+        return None, None
+    el, n = element(seq, idx)
+    if isinstance(el, tuple) and el and el[0] == "slice":
+        _t, base, slo = el
+        lo = slo
+        el = anf.opaque("at", base, idx, array=False)
+        n = ev.length_of(base)
+    if el is None:
+        return None
+    bindings: Dict[str, Any] = {}
+    vt = tgt.elts[1] if enum else tgt
+    if enum:
+        bindings[tgt.elts[0].id] = idx.sub(lo).add(start)
+    if isinstance(vt, ast.Name):
+        bindings[vt.id] = el
+    elif isinstance(vt, (ast.Tuple, ast.List)) and isinstance(el, Vec) and len(vt.elts) == len(el.items) and all(isinstance(e, ast.Name) for e in vt.elts):
+        for e, c in zip(vt.elts, el.items):
+            bindings[e.id] = c
+    else:
+        return None
+    return LoopBinding(idx, lo, n, bindings, f"elements {lo}..len of {norm_text(seq_node)}")
